@@ -36,10 +36,12 @@ SINKK = '{"page", "char"}'
 CONFIGS = {
     # (the figure family up to 4 nodes is contained in shapes-all; it is its own config from 5 nodes on, thorough tier)
     "quick": [("shapes-all", "AllKinds", 4, "Palette2"), ("shapes-text", TEXTK, 6, "Palette1"),
-              ("strings", STRK, 3, "Str2"), ("sinks", SINKK, 3, "StrSinks2")],
+              ("strings", STRK, 3, "Str2"), ("sinks", SINKK, 3, "StrSinks2"),
+              # format metacharacters (% templates, str.format templates) in glyph text, font, figure and image names
+              ("format", STRK, 3, "StrFormat2")],
     "thorough": [("shapes-all", "AllKinds", 5, "Palette2"), ("shapes-text", TEXTK, 7, "Palette1"),
                  ("shapes-figure", FIGK, 5, "Palette2"), ("strings", STRK, 3, "Str3"), ("shapes-all6", "AllKinds", 6, "Palette1"),
-                 ("sinks", STRK, 3, "StrSinks3")],
+                 ("sinks", STRK, 3, "StrSinks3"), ("format", STRK, 3, "StrFormat3")],
 }
 CODECS = [(C.K_UTF8, "utf-8", "u8"), (C.K_UTF16, "utf-16", "u16"), (C.K_LATIN1, "latin-1", "l1")]
 # further members of the codec classes of ConvOps.tla: ASCII-escaping / shifting (modelled: u7, hz, jp), and class-mates of the
@@ -369,6 +371,8 @@ def hostile_strings(tier, rng):
         out.append("".join(C.SINGLE.get(k) or r[k] for k in c))
     # the sink dimension: ASCII characters escaping codecs rewrite, a subset-tagged font name, a CJK run followed by ASCII
     out += ["1+1", "a~b", "ABCDEF+Name", "中a", "+中~", "中文+a~"]
+    # format metacharacters: a name or text that is itself a % template or a str.format template
+    out += ["%%", "%s", "%d", "a%", "100%", "{0}", "{}", "%(a)s", "{a"]
     return out
 
 
